@@ -154,7 +154,10 @@ def table():
                                          {"axis": ax}, ["default-axis"] if ax == "default" else []))(gen.choice(r, ["default", 0, 0, -1]))
     T["tile"] = lambda r: ([arr(r)], lambda M, a: M.tile(a, 2), {}, [])
     for nm in ("concatenate", "stack", "hstack", "vstack", "dstack"):
-        T[nm] = (lambda nm: lambda r: (lambda sh: ([arr(r, sh, "int"), arr(r, sh, "int")], lambda M, a, b: getattr(M, nm)([a, b]), {}, []))(sh13(r)))(nm)
+        # operands of different types side by side (int first, halves second, and the other way round): the result has
+        # numpy's common type (seeded change C11-13: the first operand's type)
+        T[nm] = (lambda nm: lambda r: (lambda sh: ([arr(r, sh, gen.choice(r, ["int", "int", "float"])), arr(r, sh, gen.choice(r, ["int", "float"]))],
+                                                   lambda M, a, b: getattr(M, nm)([a, b]), {}, []))(sh13(r)))(nm)
     T["split"] = lambda r: ([arr(r, (4, 2))], lambda M, a: M.split(a, 2), {}, [])
     T["array_split"] = lambda r: ([arr(r, (5,))], lambda M, a: M.array_split(a, 3), {}, [])
     T["hsplit"] = lambda r: ([arr(r, (2, 4))], lambda M, a: M.hsplit(a, 2), {}, [])
@@ -176,12 +179,14 @@ def table():
             ops = [arr(r, sh, "int"), arr(r, (), "int")] if how != "scalar-operands" else [arr(r, (), "int"), arr(r, (), "float")]
         return ops, lambda M, a, b: M.where(cond, a, b), {"condition": how}, []
     T["where"] = where_
-    T["choose"] = lambda r: ([arr(r, (3,), "int"), arr(r, (3,), "int")], lambda M, a, b: M.choose(numpy.array([0, 1, 0]), [a, b]), {}, [])
+    T["choose"] = lambda r: ([arr(r, (3,), "int"), arr(r, (3,), gen.choice(r, ["int", "float"]))], lambda M, a, b: M.choose(numpy.array([0, 1, 0]), [a, b]), {}, [])
     T["full_like"] = lambda r: ([arr(r, sh13(r), "int")], lambda M, a: M.full_like(a, 7), {}, [])
     T["diff"] = lambda r: ([arr(r, gen.choice(r, [(4,), (2, 3)]))], lambda M, a: M.diff(a), {}, [])
     T["ediff1d"] = lambda r: ([arr(r, (4,))], lambda M, a: M.ediff1d(a), {}, [])
     T["inner"] = lambda r: ([arr(r, (3,), "int"), arr(r, (3,), "int")], lambda M, a, b: M.inner(a, b), {}, [])
-    T["outer"] = lambda r: ([arr(r, (2,), "int"), arr(r, (3,), "int")], lambda M, a, b: M.outer(a, b), {}, [])
+    # numpy.outer flattens its operands: any rank on either side (seeded change C11-14: the multiply.outer reading)
+    T["outer"] = lambda r: ([arr(r, gen.choice(r, [(2,), (2,), (), (2, 3), (1, 2), (2, 1, 2)]), "int"), arr(r, gen.choice(r, [(3,), (3,), (), (2, 2), (3, 1)]), "int")],
+                            lambda M, a, b: M.outer(a, b), {}, [])
     T["matmul"] = lambda r: (lambda s: ([arr(r, s[0], "int"), arr(r, s[1], "int")], lambda M, a, b: M.matmul(a, b), {}, ["vector-operand"] if 1 in (len(s[0]), len(s[1])) else []))(
         gen.choice(r, [((2, 3), (3, 2)), ((2, 2), (2, 2)), ((2, 2, 3), (3, 2)), ((3,), (3,)), ((2, 3), (3,))]))
     T["det"] = lambda r: (lambda k: ([arr(r, (k, k), "int")], lambda M, a: (M.det(a) if M is numpoly else numpy.rint(numpy.linalg.det(a)).astype(int)), {"n": k}, []))(int(r.integers(1, 5)))
